@@ -551,6 +551,49 @@ Proof.
   - intros tr1 i l q e tr2 ic sc c E. rewrite Fc, Fp, Fl. eapply (t_children _ _ _ I); eauto.
 Qed.
 
+(** the invariant does not look at the slab-guard and filter fields *)
+Lemma Inv_ghost : forall pend st st' tr, Inv pend st tr ->
+  st_slots st' = st_slots st -> st_layers st' = st_layers st -> st_count st' = st_count st ->
+  st_created st' = st_created st -> st_cpar st' = st_cpar st -> st_panicked st' = st_panicked st ->
+  st_close st' = st_close st -> st_handles st' = st_handles st -> st_entries st' = st_entries st -> st_ene st' = st_ene st ->
+  Inv pend st' tr.
+Proof.
+  intros pend st st' tr I Es El En Ec Ep Ek Ecl Eh Ee Eg.
+  eapply Inv_refs_only; eauto.
+  - split; [|repeat split; auto]. intros i x; rewrite Es. exists (s_refs (st_slots st i x)). destruct (st_slots st i x); reflexivity.
+  - intros; rewrite Ecl; apply (i_close0 _ _ _ I).
+  - rewrite Eh; apply (i_hnodup _ _ _ I).
+  - rewrite Eh; apply (i_handles _ _ _ I).
+  - rewrite Ee; apply (i_entries _ _ _ I).
+  - rewrite Ee; apply (i_dups _ _ _ I).
+  - rewrite Eg, Ee; apply (i_ene _ _ _ I).
+  - intros i s sl L. rewrite Es. pose proof (lookup_some _ _ _ _ L) as (<- & _).
+    unfold nH, nE. rewrite Eh, Ee. split; [apply (i_refs _ _ _ I _ _ _ L) | apply (i_pos _ _ _ I _ _ _ L)].
+Qed.
+
+(** a pending release turned into a (phantom) handle: the storage of a span reported closed under a guard keeps the
+    reference on the parent *)
+Lemma Inv_pend_to_handle : forall st tr i p ph, Inv (Some (i, p)) st tr -> is_live st i p = true ->
+  hget ph (st_handles st) = None -> Inv None (set_handles ((ph, HSpan i p) :: st_handles st) st) tr.
+Proof.
+  intros st tr i p ph I V F.
+  eapply Inv_refs_only with (st := st); eauto.
+  - split; [|repeat split; auto]. intros i' x'; simpl. exists (s_refs (st_slots st i' x')). destruct (st_slots st i' x'); reflexivity.
+  - apply (i_close0 _ _ _ I).
+  - simpl. constructor; [apply hget_none; auto | apply (i_hnodup _ _ _ I)].
+  - simpl. intros h0 i0 s0 [X|X]; [inversion X; subst; auto | eapply i_handles; eauto].
+  - apply (i_entries _ _ _ I).
+  - apply (i_dups _ _ _ I).
+  - apply (i_ene _ _ _ I).
+  - intros i' s' y Ly. simpl st_slots. pose proof (lookup_some _ _ _ _ Ly) as (Ey & _). rewrite <- Ey.
+    split; [|apply (i_pos _ _ _ I _ _ _ Ly)]. rewrite (i_refs _ _ _ I _ _ _ Ly).
+    change (nE (set_handles ((ph, HSpan i p) :: st_handles st) st) i' s') with (nE st i' s').
+    assert (EH : nH (set_handles ((ph, HSpan i p) :: st_handles st) st) i' s' = pendn (Some (i, p)) i' s' + nH st i' s').
+    { unfold nH, pendn. simpl st_handles. simpl filter. unfold hmatch at 1. simpl snd.
+      destruct ((i =? i') && sid_eqb p s'); reflexivity. }
+    rewrite EH, pendn_none. f_equal. lia.
+Qed.
+
 (* ---------------------------------------------------------------- Layered::try_close, whole *)
 Lemma forallb_app_l : forall {A} (f : A -> bool) a b, forallb f (a ++ b) = true -> forallb f a = true /\ forallb f b = true.
 Proof. intros; rewrite forallb_app in H; apply andb_true_iff in H; auto. Qed.
@@ -624,27 +667,40 @@ Proof.
     unfold clear_slot in CS.
     change (lookup (put_close st1 t 0) i s) with (lookup st1 i s) in CS. rewrite L1 in CS.
     change (vacate (put_close st1 t 0) i s (set_refs sl 0%N)) with (closing st c' i s sl) in CS.
-    simpl s_parent in CS.
+    simpl s_parent in CS. simpl s_seq in CS.
+    set (stv := closing st c' i s sl) in *.
+    destruct (closing_fields st c' i s sl) as (Fl & Fh & Fe & Fg & Fc & Fn & Fp & Fk & Fcl & Fd & Fs & Fgl). fold stv in Fl, Fh, Fe, Fg, Fc, Fn, Fp, Fk, Fcl, Fd, Fs, Fgl.
     destruct (s_parent sl) as [p|] eqn:P.
-    + (* release the parent through get_default *)
-      set (stv := closing st c' i s sl) in *.
-      destruct (eff stv t nested) as [j|] eqn:Ed.
-      * destruct (close_stack f stv t nested j p) as [st'' o''] eqn:CS2.
-        inversion CS; subst st' o; clear CS.
-        apply forallb_app_l in RO. destruct RO as (_ & RO). simpl in RO. apply andb_true_iff in RO. destruct RO as (Rj & RO).
-        apply Nat.eqb_eq in Rj. subst j.
-        destruct (i_parent _ _ _ I _ _ _ _ L P) as (pl & Lp & Ink & Ltp).
-        assert (Lp' : lookup stv i p = Some (unkid s pl)).
-        { unfold stv. rewrite lookup_closing; auto.
-          - rewrite P, Lp, key_eqb_refl. rewrite key_eqb_false; auto.
-            intros X; inversion X; subst. rewrite L in Lp; inversion Lp; subst; lia.
-          - intros p0 P0. rewrite P in P0; inversion P0; subst p0. split; eauto.
-            intros ->. rewrite L in Lp; inversion Lp; subst; lia. }
-        assert (IV' : Inv (Some (i, p)) stv ((tr ++ map (fun l => OClose i l (s_seq sl) (Some (s_seq sl))) (seq 0 n)) ++ [ORoute i (Some i)])).
-        { apply Inv_inert; auto. intros o [<-|[]]. split; simpl; auto. }
-        pose proof (IH _ _ _ _ _ _ _ IV' Lp' ltac:(simpl; lia) _ _ CS2 RO) as IF.
-        rewrite <- !app_assoc in IF. simpl in IF. exact IF.
-      * inversion CS; subst st' o; clear CS.
-        apply forallb_app_l in RO. destruct RO as (_ & RO). simpl in RO. discriminate.
-    + inversion CS; subst st' o; clear CS. rewrite app_nil_r. exact IV.
+    + destruct (i_parent _ _ _ I _ _ _ _ L P) as (pl & Lp & Ink & Ltp).
+      assert (Lp' : lookup stv i p = Some (unkid s pl)).
+      { unfold stv. rewrite lookup_closing; auto.
+        - rewrite P, Lp, key_eqb_refl. rewrite key_eqb_false; auto.
+          intros X; inversion X; subst. rewrite L in Lp; inversion Lp; subst; lia.
+        - intros p0 P0. rewrite P in P0; inversion P0; subst p0. split; eauto.
+          intros ->. rewrite L in Lp; inversion Lp; subst; lia. }
+      match type of CS with (let '(_, _) := (if ?B then _ else _) in _) = _ => destruct B eqn:EB end.
+      * (* a guard keeps the storage: the parent reference becomes a phantom handle, no cascade *)
+        apply andb_true_iff in EB. destruct EB as (_ & EB).
+        change (st_handles (put_close st1 t 0)) with (st_handles st) in EB.
+        destruct (hget (phantom (s_seq sl)) (st_handles st)) eqn:HG; [discriminate|].
+        inversion CS; subst st' o; clear CS. rewrite app_nil_r.
+        eapply Inv_ghost; [eapply (Inv_pend_to_handle stv _ i p (phantom (s_seq sl)) IV)|..]; try reflexivity.
+        -- apply is_live_true; eauto.
+        -- rewrite Fh. exact HG.
+      * (* release the parent through get_default *)
+        set (std := drop_note stv i s) in *.
+        change (eff std t nested) with (eff stv t nested) in CS.
+        destruct (eff stv t nested) as [j|] eqn:Ed.
+        -- destruct (close_stack f std t nested j p) as [st'' o''] eqn:CS2.
+           inversion CS; subst st' o; clear CS.
+           apply forallb_app_l in RO. destruct RO as (_ & RO). simpl in RO. apply andb_true_iff in RO. destruct RO as (Rj & RO).
+           apply Nat.eqb_eq in Rj. subst j.
+           assert (IV' : Inv (Some (i, p)) std ((tr ++ map (fun l => OClose i l (s_seq sl) (Some (s_seq sl))) (seq 0 n)) ++ [ORoute i (Some i)])).
+           { apply Inv_inert; [|intros o [<-|[]]; split; simpl; auto]. eapply Inv_ghost; [exact IV|..]; reflexivity. }
+           pose proof (IH _ _ _ _ _ _ _ IV' Lp' ltac:(simpl; lia) _ _ CS2 RO) as IF.
+           rewrite <- !app_assoc in IF. simpl in IF. exact IF.
+        -- inversion CS; subst st' o; clear CS.
+           apply forallb_app_l in RO. destruct RO as (_ & RO). simpl in RO. discriminate.
+    + match type of CS with (let '(_, _) := (if ?B then _ else _) in _) = _ => destruct B end;
+        inversion CS; subst st' o; clear CS; rewrite app_nil_r; (eapply Inv_ghost; [exact IV|..]; reflexivity).
 Qed.
